@@ -697,6 +697,115 @@ impl Check for TanhSinhDense {
     }
 }
 
+// ------------------------------------------------------------------ polynomials on which the first two rules coincide
+#[derive(Serialize, Deserialize, Clone, Debug)]
+pub struct CoincidePt {
+    /// 0 Gauss-Legendre on [centre - length/2, centre + length/2], 1 Laguerre, 2 Hermite, 3 Chebyshev, 4 Chebyshev second kind
+    pub routine: usize,
+    /// constant term: 0 (the 1- and 2-point rules both give exactly 0) or 1 (they give the same non-zero value)
+    pub c: f64,
+    pub centre: f64,
+    pub length: f64,
+    pub tol: f64,
+    pub complex: bool,
+}
+pub struct FirstRulesCoincide;
+impl Check for FirstRulesCoincide {
+    type P = CoincidePt;
+    fn name(&self) -> &'static str {
+        "first-rules-coincide"
+    }
+    fn rule(&self) -> String {
+        "the five Gaussian integrators on the degree-4 polynomials c + 4 w(x), w = (square of the 1-point rule's node factor) x (the 2-point rule's node polynomial), c in {0, 1}: the 1- and 2-point rules agree exactly (on 0 for c = 0) although the integral differs; every rule sequence integrates degree 4 exactly from its third rule on, so Ok with the exact value is required; real and complex (times 1 - 2i) integrands; signature = (routine, c, outcome)".into()
+    }
+    fn points(&self, _t: Tier) -> Vec<CoincidePt> {
+        let mut v = vec![];
+        for routine in 0..5 {
+            for &c in &[0.0, 1.0] {
+                for &tol in &[1e-3, 1e-6, 1e-9] {
+                    for complex in [false, true] {
+                        if routine == 0 {
+                            for &(centre, length) in &[(0.0, 2.0), (1.0, 2.0), (-3.0, 1.0), (0.25, 0.5), (2.0, 4.0)] {
+                                v.push(CoincidePt { routine, c, centre, length, tol, complex });
+                            }
+                        } else {
+                            v.push(CoincidePt { routine, c, centre: 0.0, length: 0.0, tol, complex });
+                        }
+                    }
+                }
+            }
+        }
+        v
+    }
+    fn run(&self, p: &CoincidePt) -> Outcome {
+        let mut o = Outcome::new();
+        let pi = std::f64::consts::PI;
+        let (m, h) = (p.centre, 0.5 * p.length);
+        let (c0, routine) = (p.c, p.routine);
+        // w and its weighted integral, and the zeroth moment
+        let w = move |x: f64| -> f64 {
+            match routine {
+                0 => { let u = (x - m) / h; u * u * (u * u - 1.0 / 3.0) }
+                1 => (x - 1.0) * (x - 1.0) * (x * x - 4.0 * x + 2.0),
+                2 | 3 => x * x * (x * x - 0.5),
+                _ => x * x * (x * x - 0.25),
+            }
+        };
+        let (iw, mu0) = match routine {
+            0 => (8.0 / 45.0 * h, 2.0 * h),
+            1 => (4.0, 1.0),
+            2 => (pi.sqrt() / 2.0, pi.sqrt()),
+            3 => (pi / 8.0, pi),
+            _ => (pi / 32.0, pi / 2.0),
+        };
+        let factor = if p.complex { C::new(1.0, -2.0) } else { C::new(1.0, 0.0) };
+        let exact = factor * (c0 * mu0 + 4.0 * iw);
+        let names = ["integrate_gaussian", "integrate_laguerre", "integrate_hermite", "integrate_chebyshev", "integrate_chebyshev_second"];
+        let subj = format!("integrate::{}", names[routine]);
+        let res: Result<Result<C, String>, String> = vcore::guard(|| {
+            if p.complex {
+                let g = |x: f64| factor * (c0 + 4.0 * w(x));
+                match routine {
+                    0 => integrate_gaussian::<C, _>(m - h, m + h, g, p.tol),
+                    1 => integrate_laguerre::<C, _>(g, p.tol),
+                    2 => integrate_hermite::<C, _>(g, p.tol),
+                    3 => integrate_chebyshev::<C, _>(g, p.tol),
+                    _ => integrate_chebyshev_second::<C, _>(g, p.tol),
+                }
+            } else {
+                let g = |x: f64| c0 + 4.0 * w(x);
+                match routine {
+                    0 => integrate_gaussian::<f64, _>(m - h, m + h, g, p.tol),
+                    1 => integrate_laguerre::<f64, _>(g, p.tol),
+                    2 => integrate_hermite::<f64, _>(g, p.tol),
+                    3 => integrate_chebyshev::<f64, _>(g, p.tol),
+                    _ => integrate_chebyshev_second::<f64, _>(g, p.tol),
+                }
+                .map(|v| C::new(v, 0.0))
+            }
+        });
+        let class = match res {
+            Err(msg) => {
+                o.viol(&subj, "never-panics", format!("{:?}: {}", p, msg));
+                "panic"
+            }
+            Ok(Err(e)) => {
+                o.viol(&subj, "ok-in-the-reliable-class", format!("{:?}: Err({}) on a polynomial of degree 4", p, e));
+                "err"
+            }
+            Ok(Ok(v)) => {
+                let bound = 4.0 * p.tol + 1e-9 * (1.0 + exact.norm());
+                if !((v - exact).norm() <= bound) {
+                    o.viol(&subj, "ok-result-within-tolerance", format!("{:?}: got {} but the integral of this degree-4 polynomial is {} (the 1- and 2-point rules both give {})", p, v, exact, factor * c0 * mu0));
+                }
+                "ok"
+            }
+        };
+        o.sig = format!("{}|c{}|{}", names[routine], p.c, class);
+        o
+    }
+}
+
 // ------------------------------------------------------------------ Romberg
 #[derive(Serialize, Deserialize, Clone, Debug)]
 pub struct RomPt {
@@ -912,6 +1021,7 @@ pub fn main(mut r: Report) -> ! {
     r.run(&Weighted);
     r.run(&ComplexMixtures);
     r.run(&TanhSinhDense);
+    r.run(&FirstRulesCoincide);
     r.run(&Romberg);
     r.run(&Rejections);
     r.finish()
